@@ -585,6 +585,13 @@ fn quals_step(q: &mut Qualifiers, a: &[&str]) -> Result<String, String> {
             q.clear();
             ".".to_string()
         },
+        // keep a clone alive for the rest of the request (storage shared between clones must not leak edits either way)
+        "snap" => {
+            let c = q.clone();
+            let shown = show_quals(&c);
+            SNAPS.with(|s| s.borrow_mut().push((c, shown)));
+            ".".to_string()
+        },
         // a collection with the same content built from scratch (and a clone): equal, same hash, cmp Equal
         "eqf" => {
             let fresh = Qualifiers::try_from_iter(q.iter().map(|(k, v)| (k.to_string(), v.to_string()))).map_err(|e| e.to_string())?;
@@ -890,6 +897,16 @@ fn run_quals_script(q: &mut Qualifiers, script: &str, out: &mut Vec<String>) -> 
         out.push(quals_step(q, &a)?);
     }
     Ok(())
+}
+
+thread_local! {
+    /// clones taken by the `snap` step and kept alive until the request ends, with what they showed when taken
+    static SNAPS: std::cell::RefCell<Vec<(Qualifiers, String)>> = std::cell::RefCell::new(vec![]);
+}
+
+/// a clone is a value of its own: whatever happens to the original afterwards, it still shows what it showed
+fn snaps_intact() -> bool {
+    SNAPS.with(|s| s.borrow().iter().all(|(q, shown)| show_quals(q) == *shown))
 }
 
 fn op_quals(script: &str) -> Result<String, String> {
@@ -2046,7 +2063,8 @@ fn run() {
             writeln!(out, "{}", line).unwrap();
             continue;
         }
-        let ans = match catch_unwind(AssertUnwindSafe(|| dispatch(line))) {
+        SNAPS.with(|s| s.borrow_mut().clear());
+        let ans = match catch_unwind(AssertUnwindSafe(|| dispatch(line).map(|a| if snaps_intact() { a } else { a + " !snap" }))) {
             Ok(Ok(a)) => a,
             Ok(Err(e)) => format!("BADREQ {}", e),
             Err(_) => "PANIC".to_string(),
